@@ -111,6 +111,7 @@ pub mod site {
     pub const SPIN_FORWARDING: u32 = mk(CLASS_SPIN, 1);
     pub const SPIN_STEAL_RETRY: u32 = mk(CLASS_SPIN, 2);
     pub const SPIN_PAGE_MAPPED: u32 = mk(CLASS_SPIN, 3);
+    pub const SPIN_POLL_SLOW: u32 = mk(CLASS_SPIN, 4);
 
     pub const POOL_QUEUE: u32 = mk(CLASS_POOL, 1);
     pub const POOL_POOL: u32 = mk(CLASS_POOL, 2);
